@@ -249,11 +249,11 @@ func firstLine(s string) string {
 
 // lifecycle builds the frames of one message (request or response) on a stream.
 type shape struct {
-	Frags   int
-	Prio    bool
-	HdrES   bool   // END_STREAM on HEADERS (no body)
-	Data    string // "", "5", "5+0es", "5p1", "5p255", "0", "3,4"
-	End     string // "es" (END_STREAM on last DATA), "trailers1", "trailers2", "rst", "open"
+	Frags int
+	Prio  bool
+	HdrES bool   // END_STREAM on HEADERS (no body)
+	Data  string // "", "5", "5+0es", "5p1", "5p255", "0", "3,4"
+	End   string // "es" (END_STREAM on last DATA), "trailers1", "trailers2", "rst", "open"
 }
 
 func (sh shape) String() string {
@@ -527,6 +527,18 @@ func scenarios(tier string) []scenario {
 			Server: []hw.Spec{{T: "settings_ack"}, {T: "ping", Ping: "abcdefgh"}}},
 		{Client: []hw.Spec{{T: "ping", Ack: true, Ping: "abcdefgh"}, {T: "goaway", Last: 0, Code: 0, Debug: "bye"}}, Server: []hw.Spec{{T: "ping", Ack: true, Ping: "12345678"}, {T: "goaway", Last: 3, Code: 2, Debug: "server going away"}}},
 	}})
+	// GOAWAY (with debug data) is not the endpoint's last frame: streams up to Last go on, and connection-level frames
+	// follow it; whatever the relay reads next must not change what it forwards for the GOAWAY
+	for _, who := range []string{"client", "server"} {
+		ga := []hw.Spec{{T: "goaway", Last: 1, Code: 0, Debug: strings.Repeat("A", 32)}, {T: "data", Stream: 1, Len: 40}, {T: "ping", Ping: "pingpong"},
+			{T: "settings", Settings: [][2]uint32{{3, 7}, {6, 4000}}}, {T: "data", Stream: 1, Len: 3, EndStream: true}}
+		st := step{Client: ga}
+		if who == "server" {
+			st = step{Server: ga}
+		}
+		out = append(out, scenario{Fam: "misc", Name: "goaway from the " + who + " followed by more of its frames", Bound: 1, Steps: []step{settingsStep(),
+			{Client: shape{Frags: 1}.frames(1, reqFields)}, {Server: shape{Frags: 1}.frames(1, resFields)}, st}})
+	}
 	// header table: repeated fields across blocks (indexed references), a field larger than the table, table size change
 	big := [][2]string{{":status", "200"}, {"x-big", strings.Repeat("b", 5000)}}
 	out = append(out, scenario{Fam: "hpack", Name: "repeated blocks, oversized field, table size setting", Steps: []step{settingsStep(),
